@@ -771,6 +771,10 @@ func (fr *Frame) resolveLocalAt(name string, at *ssa.BasicBlock, st *State) (Ter
 					if _, ok := fr.vals[al]; ok {
 						bestV, isAddr = al, true
 					}
+				} else if fv := fr.freeVarOf(ins); fv != nil && !ins.IsAddr {
+					if _, ok := fr.vals[fv]; ok {
+						bestV, isAddr = fv, true
+					}
 				} else if _, ok := fr.vals[ins.X]; ok {
 					bestV, isAddr = ins.X, ins.IsAddr
 				} else if _, isC := ins.X.(*ssa.Const); isC {
@@ -1108,7 +1112,7 @@ func (fr *Frame) execAppend(cc *ssa.CallCommon, args []Term, c *blockCtx) Term {
 	if bcat := g.W.abstracts["bcat"]; bytes0 != "" && bcat != nil && len(bcat.Params) == 2 {
 		// abstract content: bytes(append(s, add...)) is the content of s followed by the content of add
 		g.declSort("Bytes")
-		g.sc.DeclareOnce("bytesOf", "(declare-fun bytesOf ((Array Ref Int) Slice) Bytes)")
+		g.declBytesOf()
 		g.declareAbstract(bcat)
 		h1 := g.heap(c.st, g.heapKeyT(et), SInt).S
 		g.sc.Assume(eq(app("bytesOf", h1, res.S), app("bcat", app("bytesOf", bytes0, s.S), app("bytesOf", bytes0, add.S))))
